@@ -1,6 +1,7 @@
 package harness
 
 import (
+	"math"
 	"fmt"
 	"runtime"
 	"sort"
@@ -29,6 +30,38 @@ type C15Case struct {
 	Readers [][]string  `json:"readers,omitempty"` // per goroutine: list of read-only operations
 	Mixed   bool        `json:"mixed,omitempty"`   // element kinds: ints only or mixed incl. nested containers
 	Nested  bool        `json:"nested,omitempty"`  // mapasync: the callback itself runs MapAsync / ForEachAsync on nested containers
+	// Odd > 0 (mapasync): for every fourth element, starting at Odd mod 4, the pure function returns an
+	// unusual but supported value (nil, an infinity, zero values, a string that is not valid UTF-8, sized
+	// numbers, native slices and maps) that Map and MapAsync must store identically
+	Odd int `json:"odd,omitempty"`
+}
+
+func oddResult(slot int) any {
+	switch slot % 12 {
+	case 0:
+		return nil
+	case 1:
+		return "\xffill-formed\xc3"
+	case 2:
+		return math.Inf(1)
+	case 3:
+		return int8(slot % 100)
+	case 4:
+		return float32(1.5)
+	case 5:
+		return []any{slot, "x"}
+	case 6:
+		return map[string]any{"k": slot}
+	case 7:
+		return []string{"a", ""}
+	case 8:
+		return ""
+	case 9:
+		return 0
+	case 10:
+		return false
+	}
+	return math.Inf(-1)
 }
 
 var listReadOps = []string{"Get", "GetInt", "TypeOf", "Count", "String", "FormatString", "Clone", "Equals", "SubList", "Concat", "ConcatSelf", "Filter", "FilterInts",
@@ -50,6 +83,9 @@ func GenC15(t *rapid.T) *C15Case {
 	case 1:
 		c.Sub = "mapasync"
 		c.Nested = drawBool(t, "nestedasync")
+		if oneIn(t, 3, "oddresults") {
+			c.Odd = 1 + drawInt(t, 0, 3, "oddat")
+		}
 		c.N = []int{0, 1, 2, 3, 5, 8, 16, 40, 64, 65, 129, 257, 1025, 2049}[drawIdx(t, 14, "n")]
 		for i := 0; i < c.N; i++ {
 			c.Yields = append(c.Yields, drawInt(t, 0, 3, "y"))
@@ -302,6 +338,9 @@ func runMapAsyncInner(c *C15Case, st *Stats) error {
 		for y := 0; y < yields(slot); y++ {
 			runtime.Gosched()
 		}
+		if c.Odd > 0 && slot >= 0 && slot%4 == (c.Odd-1)%4 {
+			return oddResult(slot/4 + c.Odd)
+		}
 		switch x := v.(type) {
 		case int:
 			return x * 3
@@ -363,7 +402,7 @@ func runMapAsyncInner(c *C15Case, st *Stats) error {
 		}
 		for i := 0; i < want.Count(); i++ {
 			same := ifaceEq(got.Get(i), want.Get(i))
-			if !same && c.Nested {
+			if !same && (c.Nested || c.Odd > 0) {
 				// containers created by the callback are distinct instances in the two results: compare content
 				same = fpValue(got.Get(i)) == fpValue(want.Get(i))
 			}
@@ -780,7 +819,7 @@ func CheckC15(c *C15Case, st *Stats) error {
 
 func init() {
 	p := Register("C15",
-		"three sub-checks, binary built with -race (halt_on_error), GOMAXPROCS drawn from {1,2,4,16}. foreach: list/object of size 0,1,2..40, 64, 65, 100, 130; every callback signals arrival and blocks on its own gate; a controller opens the gates in a drawn permutation; every callback must have been started within 20 s although the others are held back (calls run independently); at the instant ForEachAsync returns all n callbacks must have returned, each (index|key, value) exactly once, receiver returned. mapasync: MapAsync vs Map with a pure tagging function that yields a drawn number of times per element. readers: 2-8 goroutines released together, each running 1-6 drawn non-mutating operations (41 list / 27 object operations incl. Concat on a receiver with spare capacity, Clone, SubList, Filter, Map, Merge, Keys, String, tree-form reads, aggregates, nested ForEachAsync/MapAsync) on one shared container; results must equal the sequential results computed on a twin container (the shared one is untouched until the goroutines start) (order-insensitively where the library's order is random) and the race detector must stay silent. Non-trivial = foreach with n >= 2 and a release order different from index order or GOMAXPROCS > 1; mapasync with n >= 2 and GOMAXPROCS > 1; readers with at least two allocating operations. Distinct = distinct FNV-64a hash of the case JSON.",
+		"three sub-checks, binary built with -race (halt_on_error), GOMAXPROCS drawn from {1,2,4,16}. foreach: list/object of size 0,1,2..40, 64, 65, 100, 130; every callback signals arrival and blocks on its own gate; a controller opens the gates in a drawn permutation; every callback must have been started within 20 s although the others are held back (calls run independently); at the instant ForEachAsync returns all n callbacks must have returned, each (index|key, value) exactly once, receiver returned. mapasync: MapAsync vs Map with a pure tagging function that yields a drawn number of times per element and, in one case of three, returns unusual supported values for every fourth element (nil, infinities, zero values, a string that is not valid UTF-8, sized numbers, native slices and maps). readers: 2-8 goroutines released together, each running 1-6 drawn non-mutating operations (41 list / 27 object operations incl. Concat on a receiver with spare capacity, Clone, SubList, Filter, Map, Merge, Keys, String, tree-form reads, aggregates, nested ForEachAsync/MapAsync) on one shared container; results must equal the sequential results computed on a twin container (the shared one is untouched until the goroutines start) (order-insensitively where the library's order is random) and the race detector must stay silent. Non-trivial = foreach with n >= 2 and a release order different from index order or GOMAXPROCS > 1; mapasync with n >= 2 and GOMAXPROCS > 1; readers with at least two allocating operations. Distinct = distinct FNV-64a hash of the case JSON.",
 		GenC15, CheckC15)
 	p.PreWrite = true
 }
